@@ -166,8 +166,8 @@ Definition apply_vertical (prod : inst) (rules : list inst) : res (list inst) :=
     else
       e2 <- check_replace_dq_q_with_rq prod' rule ;;
       if e2 then
-        pcs' <- foldM (fun l c => remove_first c l) (i_consumers rule) pcs ;;
-        Ok (pcs', acc ++ [mk_like rule Tr_QUANTIZE_TENSOR (i_params prod);
+        Ok (remove_if_present pcs (i_consumers rule),
+            acc ++ [mk_like rule Tr_QUANTIZE_TENSOR (i_params prod);
                            mk_like rule Tr_ADD_QUANTIZE (i_params rule)])
       else
         e3 <- check_dq_no_quant_elimination prod' rule ;;
